@@ -182,7 +182,7 @@ def unary(bs, acc, d, full, lsb0=False):
                                       '\n'.join(["import bitstring", f"bitstring.options.lsb0 = {lsb0}", f"s = {mk(cls, d, pos)}", "t = s", "try:", f"    s {sym} {n}",
                                                  "except ValueError:", f"    assert {exp[0]!r} == 'exc' and t.bin == {d!r}, t.bin", "else:",
                                                  f"    assert {exp[0]!r} == 'ok' and s is t and s.bin == {exp[1]!r}, s.bin"]), e2, got)
-        if s.bin != d or getattr(s, '_pos', 0) != pos:
+        if s.bin != d or getattr(s, 'pos', 0) != pos:
             acc.violation('frame', 'frame', dict(cls=cls, data=d), "# operand changed by ~/<</>>\nassert False", d, s.bin)
     acc.outcome(('unary', d))
     acc.sample(dict(bits=d[:64], events='~s, s << n, s >> n, s <<= n, s >>= n for n in ' + str(shifts[:6]) + '...'))
@@ -205,7 +205,7 @@ def binary(bs, acc, a, b, full, lsb0=False):
                 if not exc_match(exp, got):
                     acc.violation(op, vkind(exp, got), dict(lcls=lcls, left=a, rcls=rcls, right=b),
                                   snippet([f"s = {mk(lcls, a, lpos)}", f"t = {mk(rcls, b)}"], f"s {sym} t", exp, conv=CB_SRC), exp, got)
-                if s.bin != a or t.bin != b or getattr(s, '_pos', 0) != lpos:
+                if s.bin != a or t.bin != b or getattr(s, 'pos', 0) != lpos:
                     acc.violation(op, 'frame', dict(lcls=lcls, left=a, rcls=rcls, right=b),
                                   '\n'.join(["import bitstring", f"s = {mk(lcls, a)}", f"t = {mk(rcls, b)}", "try:", f"    s {sym} t",
                                              "except ValueError:", "    pass", f"assert (s.bin, t.bin) == ({a!r}, {b!r}), (s.bin, t.bin)"]),
